@@ -72,6 +72,8 @@ Bad(ev) ==
     \* an override made before the registry was first read must be what the name denotes afterwards
     [] ev.ev = "init" -> ev.early # <<>> /\ \A i \in DOMAIN ev.names : ev.names[i][1] = ev.early[1] => ev.names[i][2] # ev.early[2]
     \* quiescent style listing (auto.ListStyles): sorted and showing every registered name and the four sub-packages
+    \* a listing that was returned earlier has changed in its caller's hands
+    [] ev.ev = "listchanged" -> TRUE
     [] ev.ev = "styles" -> ev.sorted # 1 \/ ~((Known \cup {"csv", "html", "json", "markdown"}) \subseteq Range(ev.res))
     [] OTHER -> FALSE
 
